@@ -160,6 +160,18 @@ CHECKS = {
             'Trusted: the reservoir object is exactly (_cap, _data, _total_count) (asserted); the stats report is '
             'keyed by pattern (O9).',
             'DESIGN.md section 5, C19'),
+    'C16': ('E2-history-bfs',
+            'explicit-state BFS over client/clock/tamper histories against the real middleware; semantic MAC '
+            'verification as reference for tampered cookies, model dict for untampered ones',
+            'All histories up to depth 4 (thorough 5) over {set (5 JSON values, 3 keys), delete, read, clear} for two '
+            'clients, clock advances to and past the expiry, and 21 tampering steps (byte flips in MAC/key/payload, '
+            'unused-low-bit flip that stays valid, truncate, extend, swap MAC/payload between clients, re-sign with '
+            'another key, cookie of another default-constructed middleware instance, malformed base64, non-ASCII, '
+            'missing separators, empty, quotes) in 12 configurations (expiry session/never/numeric x custom names x '
+            'explicit/default secret); in every transition the cookie object presented to the endpoint and the status '
+            'are compared. State = (cookies, clean flags, clock, models); the server is stateless.',
+            'Trusted: ref/cookie.py (stdlib hmac/hashlib/base64/json); the virtual clock seams.',
+            'DESIGN.md section 5, C16'),
 }
 
 NOT_YET = 'check not built yet in this revision of /verif (planned: bounded exhaustive exploration, see DESIGN.md section 5)'
